@@ -249,10 +249,11 @@ func genHistory(r *Rng, o GenOpt) *HistInput {
 // histOpts lets a property wrap the history cases into its own case type and
 // add cases of another shape to the same run.
 type histOpts struct {
-	caseType string           // Gallina type of a case (default hcase)
-	wrap     string           // constructor applied to the hcase term
-	extra    func(out *Out)   // emits additional cases (not in replay mode)
-	replay   func(cc CorpusCase, out *Out) bool // handles a corpus / replay case of another shape
+	caseType  string                                                // Gallina type of a case (default hcase)
+	wrap      string                                                // constructor applied to the hcase term
+	extra     func(out *Out)                                        // emits additional cases (not in replay mode)
+	extraEmit func(out *Out, emit func(kind string, in *HistInput)) // additional history cases
+	replay    func(cc CorpusCase, out *Out) bool                    // handles a corpus / replay case of another shape
 }
 
 func runHistCases(c *Ctx, prop, evalMod string, gens []func(r *Rng) (string, *HistInput),
@@ -323,6 +324,9 @@ func runHistCases(c *Ctx, prop, evalMod string, gens []func(r *Rng) (string, *Hi
 		}
 		if ho.extra != nil {
 			ho.extra(out)
+		}
+		if ho.extraEmit != nil {
+			ho.extraEmit(out, emit)
 		}
 	}
 	out.Close(rule, nil)
